@@ -66,6 +66,7 @@ type Report struct {
 	Explanation string
 	NotDecided  string
 	seenKeys    map[string]bool
+	overlay     map[string][]byte // the normal form the report was made on, nil for the text as written
 }
 
 func newReport(prop, tier string, c *Ctx) *Report {
